@@ -822,6 +822,71 @@ def t_access(ctx, prog):
             if good:
                 ctx.ok('T-ACCESS', key)
     ctx.floor('T-ACCESS', 'step cases', n, 27)
+    # provided methods of the access traits that the bridge overrides (size_hint, next_entry_seed, ..): serde's own visitors call
+    # them instead of the required ones (maps are read pairwise through next_entry_seed), so they must be the same step function
+    import re as _re
+    acc_ty = SEQ.split(' as serde::de::')[0][1:]
+    pat = _re.compile(r"^<%s as serde::de::(SeqAccess|MapAccess)<'_>>::(\w+)$" % _re.escape(acc_ty))
+    LEAF2 = [('ITEM', 'ENC', 'T', 'k'), ('ITEM', 'ENC', 'T', 'v')]
+    for inst in sorted(prog.insts.values(), key=lambda i: i['path']):
+        m_ = pat.match(inst['path'])
+        if not m_ or m_.group(2) in ('next_element_seed', 'next_key_seed', 'next_value_seed'):
+            continue
+        tr, meth = m_.group(1), m_.group(2)
+        where = mir.loc(inst['sp'])
+        if meth not in ('size_hint', 'next_entry_seed'):
+            ctx.violation('T-ACCESS.override', '%s::%s' % (tr, meth), 'the bridge overrides the provided method %s::%s, which has no reference step function (review it and add the row)' % (tr, meth), where)
+            continue
+        good = True
+        for lname, lenv, rng in (('None', NONE, None), ('Some(0)', some(Int.const(0)), None), ('Some(n>=1)', some(Int.sym('rem')), ((1, (1 << 64) - 1),))):
+            streams = [('leaf', [('ITEM', 'ENC', 'T', 'x')])] if meth == 'size_hint' else [('entry', LEAF2), ('break', [('ITEM', 'BREAK')]), ('eoi', []), ('key-only', LEAF2[:1])]
+            for sname, stream in streams:
+                key = '%s|len=%s|next=%s' % (meth, lname, sname)
+                st = State()
+                if rng:
+                    st.ranges['rem'] = rng
+                    st.symty['rem'] = 'u64'
+                st.extra['stream'] = tuple(stream)
+                st.extra['cur'] = 0
+                mm = l2.L2Machine(prog, ov)
+                de, seq = seq_value(mm, st, lenv)
+                st.mem[('obj', 'seq')] = seq
+                args = [Ref(('obj', 'seq'), (), meth != 'size_hint')] + ([Atom('kseed'), Atom('vseed')] if meth == 'next_entry_seed' else [])
+                try:
+                    outs = mm.run(inst, args, st)
+                except Abort as e:
+                    ctx.fail_closed('T-ACCESS.override', '%s cannot be summarised: %s' % (key, e))
+                    good = False
+                    continue
+                for o in outs:
+                    consumed = l2.cur(o.st)
+                    sq = mm.read_path(o.st, ('obj', 'seq'), ())
+                    ln = norm(mm, o.st, sq)[4:-1]
+                    if meth == 'size_hint':
+                        if consumed or ln != lname.replace('n>=1', 'rem') or any(e[0] == 'DESER' for e in o.st.events):
+                            good = False
+                            ctx.violation('T-ACCESS.override', key, 'size_hint() changes the access state (consumed %d, remaining -> %s)' % (consumed, ln), where)
+                        continue
+                    if o.kind != 'return' or o.st.asserts:
+                        good = False
+                        ctx.violation('T-ACCESS.override', key + '|total', 'a path of next_entry_seed does not return cleanly', where)
+                        continue
+                    rk = l1.result_kind(o.value)
+                    v = o.value.fields[0] if o.value.fields else None
+                    res = 'err' if rk == 'Err' else ('none' if isinstance(v, Adt) and norm_adt(v.adt) == OPTION and v.variant == 0 else 'some')
+                    if lname == 'None':
+                        want = {'entry': ('some', 2, 'None'), 'break': ('none', 1, 'None')}.get(sname, ('err', None, None))
+                    elif lname == 'Some(0)':
+                        want = ('none', 0, 'Some(0)')
+                    else:
+                        want = {'entry': ('some', 2, 'Some(rem + -1)')}.get(sname, ('err', None, None))
+                    got = (res, consumed if res != 'err' else None, ln if res != 'err' else None)
+                    if got != want:
+                        good = False
+                        ctx.violation('T-ACCESS.override', key, 'next_entry_seed with remaining length %s on %s: result %s, %s item(s) consumed, remaining -> %s; reading a key and then a value requires %s, %s, %s' % (
+                            lname, sname, got[0], got[1], got[2], want[0], want[1], want[2]), where)
+        if good:
+            ctx.ok('T-ACCESS.override', '%s::%s' % (tr, meth))
     ctx.rules_run.append('T-ACCESS.enum: variant_seed reads the identifier and hands the same deserializer on; unit_variant consumes nothing; newtype/tuple/struct variant content goes through the seed / deserialize_tuple / deserialize_map')
     k = 0
     # variant_seed
